@@ -140,8 +140,11 @@ def run(mod, prop, tier, seed, no_build):
         hist[c.get('kind', '?')] += 1
         if c.get('nontrivial', True):
             distinct.add(json.dumps(c.get('req', c.get('id')), sort_keys=True, default=str))
-        if got.startswith('harness-exception'):
-            raise RuntimeError('harness failed on case %r: %s' % (c, got))
+        if got.startswith('harness-exception') and not orc:
+            # the observer itself raised while reading what the implementation handed back (e.g. a values array whose
+            # shape contradicts the object's shape): the case is a concrete failing input, not an infrastructure problem
+            orc = ('observer-exception:' + got.split(':')[1],
+                   'the result of the implementation could not be observed: ' + got[:300])
         if i in model_out and model_out[i] != got:
             mismatches.append((c, got, model_out[i]))
         if orc:
